@@ -223,6 +223,7 @@ func Load(opt LoadOptions) *Program {
 	})
 	p.chaCG = cha.CallGraph(prog)
 	p.cg = vta.CallGraph(all, p.chaCG)
+	p.resolveMovedAnchors()
 	return p
 }
 
@@ -269,6 +270,13 @@ func (p *Program) IsServitorFunc(fn *ssa.Function) bool {
 
 // PkgOf returns the servitor import path of fn ("" for library functions).
 func (p *Program) PkgOf(fn *ssa.Function) string {
+	// an anchor that moved to another package still belongs, for the layering the
+	// rules speak of, to the package the inventory has it in (with its closures)
+	for f := fn; f != nil; f = f.Parent() {
+		if lp, ok := logicalPkg[f]; ok {
+			return lp
+		}
+	}
 	pk := funcPkg(fn)
 	if pk == nil {
 		return ""
@@ -656,4 +664,41 @@ func (p *Program) movedType(path, typ string) *types.Named {
 		return found[0]
 	}
 	return nil
+}
+
+// logicalPkg: functions of the inventory found in another package than the
+// inventory says, with the package they are anchored in. Package-level because
+// helpers that only get a function (inStyleLayer) consult it too; one program
+// is analysed per process.
+var logicalPkg = map[*ssa.Function]string{}
+
+func (p *Program) resolveMovedAnchors() {
+	for key := range anchorFuncs {
+		dot := strings.LastIndex(key, ".")
+		if dot < 0 {
+			continue
+		}
+		path, name, typ := key[:dot], key[dot+1:], ""
+		if i := strings.Index(path, ".("); i >= 0 {
+			typ = strings.TrimSuffix(path[i+2:], ")")
+			path = path[:i]
+		}
+		pkg := p.ByPath[path]
+		if pkg == nil {
+			continue
+		}
+		present := false
+		if typ == "" {
+			sp := p.SSA.Package(pkg.Types)
+			present = sp != nil && sp.Func(name) != nil
+		} else {
+			present = p.MethodOpt(path, typ, name) != nil
+		}
+		if present {
+			continue
+		}
+		if fn := p.movedFunc(path, typ, name); fn != nil {
+			logicalPkg[fn] = path
+		}
+	}
 }
